@@ -267,6 +267,35 @@ pub fn run_c16(ctx: &Ctx, rep: &mut Report) {
             },
         );
     }
+    // (b3) document shapes up to 4 links x 4 attributes
+    {
+        let radices = [5u64, 5, 5, 5, 5, 2, 3];
+        let n = product(&radices);
+        ctx.family(
+            rep,
+            "b3-shapes-4x4",
+            "documents of 0..=4 links with 0..=4 attributes each (every shape), values and methods rotating over the 26 attribute choices with 3 different offsets, x newline option",
+            n,
+            true,
+            |i, rep| {
+                let d = decode(i, &radices);
+                let nlinks = d[0] as usize;
+                let mut doc: Doc = Vec::new();
+                let mut pos = d[6] as usize * 7;
+                for l in 0..nlinks {
+                    let na = d[1 + l] as usize;
+                    let attrs = (0..na)
+                        .map(|a| {
+                            pos += 5;
+                            attr_choice(((pos + a * 11) % 26) as u64, pos + a)
+                        })
+                        .collect();
+                    doc.push(Link { target: TARGETS[(l * 3 + d[6] as usize) % 8].into(), attrs });
+                }
+                c16_case("b3-shapes-4x4", i, n, &doc, d[5] == 1, ctx, rep);
+            },
+        );
+    }
     rep.assume("targets contain no '>' and keys no separators, as the property states; integers are compared by their decimal text");
     rep.assume("random values up to length 40 named in the quantifier are replaced by the exhaustive value family (a)");
 }
